@@ -123,6 +123,8 @@ uint64_t yields_count();  ///< number of sched_yield calls made by self
 int64_t timed_block_max_ns();
 int64_t timed_block_latest_deadline();
 void timed_block_reset();
+/// step at which self last re-acquired the mutex of a condition-variable wait (0: never)
+uint64_t last_cond_reacquire_seq();
 /// set: a *blocking* (non-try, non-timed) wait by self is a violation now
 void forbid_blocking(bool on, const char* cls);
 
